@@ -196,6 +196,10 @@ pub fn skip_compressed_name(octets: &[u8]) -> Result<usize, Error> {
     while offset < octets.len() {
         let label_len = octets[offset];
         if label_len & 0xc0 == 0xc0 {
+            if offset + 1 >= octets.len() {
+                // The second octet of the pointer is missing.
+                return Err(Error::UnexpectedEom);
+            }
             min_uncompressed_and_chunk_lens = Some((offset + 1, offset + 2));
             break;
         } else if label_len > (MAX_LABEL_LEN as u8) {
